@@ -224,6 +224,38 @@ func init() {
 	register(&harness.Prop{ID: "C01", Run: runC01})
 }
 
+// bridge seeds whose length table is tiny (found offline with
+// sim/cmd/seedsearch; every table is re-derived by the reference before use)
+var c01Seeds = append([]struct{ tag, seed string }{
+	{"single-22", "00000000000037e100000000000000000000000000000000"},
+	{"single-23", "000000000000787c00000000000000000000000000000000"},
+	{"single-21", "0000000000043b2300000000000000000000000000000000"},
+	{"pair-842-22", "0000000000013e5e00000000000000000000000000000000"},
+	{"triple-469-14-22", "0000000000010d0500000000000000000000000000000000"},
+}, c09Seeds...)
+
+// directedWrites: write sizes whose last frame ends on, just before or just
+// after a value of the table (modulo full frames), and a few one-byte writes.
+func directedWrites(c *harness.Ctx, label string, T []int) []writePlan {
+	t := c.T
+	var out []writePlan
+	for i, n := 0, 1+t.Draw(label+".n", 6); i < n; i++ {
+		tg := T[t.Draw(label+".tg", len(T))]
+		sz := tg - 21 + t.Draw(label+".d", 5) - 2
+		switch t.Draw(label+".k", 4) {
+		case 2:
+			sz += 1427 * (1 + t.Draw(label+".frames", 2))
+		case 3:
+			sz = 1
+		}
+		if sz < 0 {
+			sz = 0
+		}
+		out = append(out, writePlan{Size: sz, PauseMs: []int{0, 0, 1, 30, 1000}[t.Draw(label+".pause", 5)]})
+	}
+	return out
+}
+
 func runC01(c *harness.Ctx) {
 	defer maybeWoven(c)()
 	t := c.T
@@ -232,6 +264,17 @@ func runC01(c *harness.Ctx) {
 	setBias(bias)
 	steerPads(c, obfs4PadRanges...)
 	id := genObfs4Identity(c, iat)
+	// one run in five uses a bridge seed with a very small length table and
+	// write sizes around its values, so that bursts end exactly on a sampled
+	// length (no padding frame behind the data), one byte before or after it
+	var directedT []int
+	if t.Draw("seedkind", 5) == 4 {
+		d := c01Seeds[t.Draw("seedidx", len(c01Seeds))]
+		id.Seed = d.seed
+		directedT = lengthTable(id.Seed)
+		c.Info["seed_kind"], c.Info["table"] = d.tag, directedT
+		c.Feature("directed-seed-" + d.tag)
+	}
 	sf, err := obfs4Server(id)
 	if err != nil {
 		panic(err)
@@ -246,6 +289,9 @@ func runC01(c *harness.Ctx) {
 	ending := false
 	cs := &streamSide{name: "c", dirOut: 0, dirIn: 1, plan: drawWrites(c, "cw", 6), rdBuf: []int{32768, 1, 7, 1427, 4096}[t.Draw("c.rdbuf", 5)], ending: &ending}
 	ss := &streamSide{name: "s", dirOut: 1, dirIn: 0, plan: drawWrites(c, "sw", 6), rdBuf: []int{32768, 1, 7, 1427, 4096}[t.Draw("s.rdbuf", 5)], ending: &ending}
+	if directedT != nil {
+		cs.plan, ss.plan = directedWrites(c, "cw", directedT), directedWrites(c, "sw", directedT)
+	}
 	cs.expectIn, ss.expectIn = planTotal(ss.plan), planTotal(cs.plan)
 	drawHangUp(c, cs, ss, false)
 	cs.rdDeadlineMs = []int{0, 0, 0, 1, 20, 300}[t.Draw("c.rddl", 6)]
